@@ -248,8 +248,8 @@ func genScenBeh(t *rapid.T) Beh {
 		// a header value of any length up to a bit more than the usual one
 		return Beh{Kind: "ok", Header: map[string]string{"X-Token": rapid.StringOfN(rapid.RuneFrom([]rune("abcXYZ019-_")), 0, 20, -1).Draw(t, "token")}}
 	default:
-		// transport-level misbehaviour; one in three: a Content-Length far beyond what arrives before the close
-		if rapid.IntRange(0, 2).Draw(t, "announcesFarMore") == 0 {
+		// transport-level misbehaviour; half of the time: a Content-Length far beyond what arrives before the close
+		if rapid.Bool().Draw(t, "announcesFarMore") {
 			return announceBeh(t)
 		}
 		return genBeh(t, false)
